@@ -378,7 +378,7 @@ class t2data(object):
             [self.simulator,
              self.grid and self.grid.rocktypelist,
              self.parameter,
-             np.any(self.more_option),
+             np.any(self.more_option) or 'MOMOP' in self._sections,
              self.start,
              self.noversion,
              self.relative_permeability or self.capillarity,
@@ -388,8 +388,8 @@ class t2data(object):
              self.output_times,
              self.selection,
              self.diffusion,
-             self.grid,
-             self.grid,
+             self.grid.num_blocks > 0 or 'ELEME' in self._sections,
+             self.grid.num_connections > 0 or 'CONNE' in self._sections,
              self.meshmaker,
              self.generatorlist,
              self.short_output,
